@@ -38,6 +38,8 @@ pub trait Corp: CandidType + serde::de::DeserializeOwned + 'static {
     fn absv(&self) -> Value;
     fn gen(g: &mut StdRng, depth: u32) -> Self;
     fn same(&self, o: &Self) -> bool;
+    /// limits of a bounded vector (None for every other type)
+    fn bound() -> Value { json!({"none": 1}) }
 }
 macro_rules! prim_int {
     ($t:ty, $k:literal) => {
@@ -341,3 +343,56 @@ impl Corp for Service {
     fn gen(g: &mut StdRng, _d: u32) -> Self { Service { principal: gen_principal(g) } }
     fn same(&self, o: &Self) -> bool { self == o }
 }
+
+// ---- upgrade partners (C04 native leg)
+corp_struct!(S1Plus { a: u8 => "a", b: String => "b", c: Option<Nat> => "c", zz: Option<S1> => "zz" });
+corp_struct!(S1Minus { a: u8 => "a" });
+corp_struct!(ListPlus { head: Int => "head", tail: Option<Box<ListPlus>> => "tail", note: Option<String> => "note" });
+#[derive(CandidType, Deserialize, Debug, Clone, PartialEq)]
+pub enum E1Small { A, B(u8), Ok }
+impl Corp for E1Small {
+    fn decl(d: &mut Decl) -> String { d.named("E1Small", |d| { let fs = vec![(hash("A"), d.prim("null")), (hash("B"), u8::decl(d)), (hash("Ok"), d.prim("null"))]; d.variant(fs) }) }
+    fn absv(&self) -> Value { match self { E1Small::A => var_val(hash("A"), json!({"k": "null"})), E1Small::B(x) => var_val(hash("B"), x.absv()), E1Small::Ok => var_val(hash("Ok"), json!({"k": "null"})) } }
+    fn gen(g: &mut StdRng, d: u32) -> Self { match g.gen_range(0..3) { 0 => E1Small::A, 1 => E1Small::B(u8::gen(g, d)), _ => E1Small::Ok } }
+    fn same(&self, o: &Self) -> bool { self == o }
+}
+#[derive(CandidType, Deserialize, Debug, Clone)] pub struct TupleStruct2(pub u8, pub u8);
+impl Corp for TupleStruct2 {
+    fn decl(d: &mut Decl) -> String { let fs = vec![(0, u8::decl(d)), (1, u8::decl(d))]; let r = d.record(fs); d.node(r) }
+    fn absv(&self) -> Value { rec_val(vec![(0, self.0.absv()), (1, self.1.absv())]) }
+    fn gen(g: &mut StdRng, d: u32) -> Self { TupleStruct2(u8::gen(g, d), u8::gen(g, d)) }
+    fn same(&self, o: &Self) -> bool { self.0 == o.0 && self.1 == o.1 }
+}
+candid::define_function!(pub F1Wide : (u8) -> (Int, Option<u8>) query);
+candid::define_service!(pub Sv1Narrow : { "f": candid::func!((u8) -> (u8)) });
+impl Corp for F1Wide {
+    fn decl(d: &mut Decl) -> String { let (a, r) = (d.prim("nat8"), d.prim("int")); let o = d.node(json!({"k": "opt", "a": a.clone()})); d.node(json!({"k": "func", "args": [a], "rets": [r, o], "modes": ["query"]})) }
+    fn absv(&self) -> Value { json!({"k": "func", "b": bytesj(self.0.principal.as_slice()), "m": bytesj(self.0.method.as_bytes())}) }
+    fn gen(g: &mut StdRng, d: u32) -> Self { F1Wide::new(gen_principal(g), String::gen(g, d)) }
+    fn same(&self, o: &Self) -> bool { self == o }
+}
+impl Corp for Sv1Narrow {
+    fn decl(d: &mut Decl) -> String { let n8 = d.prim("nat8"); let f = d.node(json!({"k": "func", "args": [n8.clone()], "rets": [n8], "modes": []})); d.node(json!({"k": "service", "ms": [{"name": bytesj(b"f"), "t": f}]})) }
+    fn absv(&self) -> Value { json!({"k": "service", "b": bytesj(self.0.principal.as_slice())}) }
+    fn gen(g: &mut StdRng, _d: u32) -> Self { Sv1Narrow::new(gen_principal(g)) }
+    fn same(&self, o: &Self) -> bool { self == o }
+}
+
+// ---- bounded vectors (C08)
+use candid::types::bounded_vec::BoundedVec;
+pub trait Sized1 { const UNIT: &'static str; }
+impl Sized1 for u64 { const UNIT: &'static str = "fix"; }
+impl Sized1 for u8 { const UNIT: &'static str = "fix"; }
+impl Sized1 for String { const UNIT: &'static str = "text"; }
+macro_rules! bv {
+    ($l:expr, $s:expr, $e:expr, $t:ty) => {
+        impl Corp for BoundedVec<{ $l }, { $s }, { $e }, $t> {
+            fn decl(d: &mut Decl) -> String { let a = <$t>::decl(d); d.node(json!({"k": "vec", "a": a})) }
+            fn absv(&self) -> Value { json!({"k": "vec", "vs": self.get().iter().map(|x| x.absv()).collect::<Vec<_>>()}) }
+            fn gen(g: &mut StdRng, depth: u32) -> Self { let n = *[0usize, 1, 2, 3, 4, 5, 6].choose(g).unwrap(); BoundedVec::new((0..n).map(|_| <$t>::gen(g, depth)).collect()) }
+            fn same(&self, o: &Self) -> bool { self.get().len() == o.get().len() && self.get().iter().zip(o.get().iter()).all(|(a, b)| a.same(b)) }
+            fn bound() -> Value { let f = |x: usize| if x == usize::MAX { -1i64 } else { x as i64 }; json!({"l": f($l), "s": f($s), "e": f($e), "unit": <$t as Sized1>::UNIT}) }
+        }
+    };
+}
+bv!(4, usize::MAX, usize::MAX, u64); bv!(usize::MAX, 16, usize::MAX, u64); bv!(usize::MAX, usize::MAX, 3, String); bv!(3, 5, 2, String); bv!(5, 4, usize::MAX, u8);
